@@ -19,6 +19,9 @@ def check_for_case_violation(oToi, self, check_prefix=False, check_suffix=False,
     if self.name != "bit_string_literal" and does_not_contain_any_alpha_characters(sObjectValue):
         return None
 
+    elif is_character_literal_or_extended_identifier(sObjectValue):
+        return None
+
     elif case_exception_found(sObjectValue, self):
         oViolation = check_for_exception(sObjectValue, self, oToi, iIndex, iMyLine)
 
@@ -26,6 +29,11 @@ def check_for_case_violation(oToi, self, check_prefix=False, check_suffix=False,
         oViolation = dChecker[check_prefix][check_suffix](sObjectValue, self, oToi, iIndex, iMyLine, dCase[self.case]["check"])
 
     return oViolation
+
+
+def is_character_literal_or_extended_identifier(sString):
+    """Character literals and extended identifiers are case sensitive."""
+    return sString.startswith("'") or sString.startswith("\\")
 
 
 def get_token_value(oToi, iIndex):
